@@ -11,7 +11,16 @@ def make_recorder(W, log):
     pd = W.pd
     BF = W.load("sktime.forecasting.base._base").BaseForecaster
 
+    calls = {"n": 0, "fail_at": 0}
+
     class Rec(BF):
+        FAIL = calls  # fit / update number `fail_at` (counted over all clones) raises
+
+        def _count(self):
+            calls["n"] += 1
+            if calls["fail_at"] and calls["n"] == calls["fail_at"]:
+                raise RuntimeError("stub: cannot be fitted on this window")
+
         def __init__(self, p=0, nan_last=False, scribbles=False):
             self.p = p
             self.nan_last = nan_last
@@ -20,6 +29,7 @@ def make_recorder(W, log):
 
         def fit(self, y, X=None, fh=None, **kw):
             log.append({"op": "fit", "idx": L(y.index), "vals": L(y.values), "xidx": None if X is None else L(X.index), "p": S(self.p)})
+            self._count()
             self._cut = y.index[-1]
             if getattr(self, "scribbles", False):
                 y.iloc[0] = y.iloc[0] + 1000  # a forecaster that pre-processes its training data in place: folds must not share memory
@@ -28,6 +38,7 @@ def make_recorder(W, log):
 
         def update(self, y, X=None, update_params=True):
             log.append({"op": "update", "idx": L(y.index), "vals": L(y.values), "xidx": None if X is None else L(X.index), "p": S(self.p), "update_params": update_params})
+            self._count()
             self._cut = y.index[-1]
             return self
 
@@ -142,6 +153,9 @@ class C07(Harness):
         inp["return_data"] = bool(ctx.fresh_bool("return_data"))
         inp["prefitted"] = bool(ctx.fresh_bool("prefitted"))  # the forecaster handed to evaluate() was fitted on the whole series before
         inp["nan_last"] = K > 1 and inp["prefitted"] and not inp["return_data"]  # (tied to other flags to keep the path count)
+        inp["fail_second"] = K == 1 and inp["prefitted"] and inp["return_data"]  # the forecaster fails in the second fold
+        if K == 1 and not inp["prefitted"] and not inp["return_data"]:  # (tied to other flags to keep the path count)
+            inp["y"][0] = float("nan")  # a missing observation at the start of the series: it lies in training windows only
         inp["range_index"] = inp["prefitted"] == inp["return_data"]
         if inp["range_index"]:
             ctx.assume(inp["g"] == 1)  # (a symbolic RangeIndex step makes the length computation nonlinear: spaced labels use an Int64Index)
@@ -174,10 +188,20 @@ class C07(Harness):
         if inp.get("prefitted"):
             fc.fit(y, X)
             del log[:]
+        fail_at = 2 if inp.get("fail_second") else 0
+        Rec.FAIL["n"], Rec.FAIL["fail_at"] = 0, fail_at
         try:
             res = ev.evaluate(fc, cv, y, X, strategy=cell["strategy"], scoring=sc, return_data=inp["return_data"])
         except ValueError:
             return {"rejected": True}
+        except RuntimeError:
+            if not fail_at:
+                raise
+            return {"rejected": False, "raised": True}
+        finally:
+            Rec.FAIL["fail_at"] = 0
+        if fail_at and len(list(cv.split(y))) >= fail_at:
+            return {"rejected": False, "raised": False, "should_raise": True}
         splits = [[L(a), L(b)] for a, b in cv.split(y)]
         rows = []
         cols = list(res.columns)
@@ -204,6 +228,10 @@ class C07(Harness):
             P.check("reject-iff-window-does-not-fit", (~fits) if not isinstance(fits, bool) else (not fits))
             return
         P.check("reject-iff-window-does-not-fit", fits)
+        if out.get("raised") or out.get("should_raise"):
+            # a fold in which the forecaster fails: its error surfaces, no table with a made-up row comes back
+            P.check("one-row-per-split", bool(out.get("raised")), {"what": "the forecaster's exception in the second fold did not surface"})
+            return
         rows, splits, log = out["rows"], out["splits"], out["log"]
         P.check("one-row-per-split", len(rows) == len(splits) and len(splits) >= 1)
         want_cols = {"test_stub", "fit_time", "pred_time", "len_train_window", "cutoff"} | ({"y_train", "y_test", "y_pred"} if inp["return_data"] else set())
